@@ -26,4 +26,9 @@ PROPS = {
         level="exploration",
         rule="TODO",
     ),
+    "C47": dict(
+        engine="p_themes", quick_checks=400, thorough_checks=10000, quick_shards=14, thorough_shards=16, quick_budget_s=400, thorough_budget_s=3000,
+        level="exploration",
+        rule="TODO",
+    ),
 }
